@@ -57,6 +57,10 @@ type SeqV struct {
 	Row    Term
 	Off    Term
 	HasRow bool
+	// a two-way merge of sequences (kept symbolic so that each branch materialises on its own)
+	IteC Term
+	IteA *SeqV
+	IteB *SeqV
 }
 
 func rowSeq(row, off, ln Term) *SeqV {
@@ -67,7 +71,13 @@ func arrSeq(arr, ln Term) *SeqV {
 	return &SeqV{Len: ln, Arr: arr, HasA: true, Row: arr, Off: IntLit(0), HasRow: true, At: func(i Term) Term { return Select(arr, i) }}
 }
 
+type contentRec struct {
+	off, ln Term
+	seq     *SeqV
+}
+
 type State struct {
+	content map[string]*contentRec // symbolic contents of byte slices built by append / returned by contracts
 	heap   map[string]Term
 	base   map[string]Term // lazily created defaults (shared by clones); replaced on havoc-all
 	locals map[ssa.Value]*Value
@@ -81,6 +91,12 @@ func (s *State) Clone() *State {
 	}
 	for k, v := range s.locals {
 		n.locals[k] = v
+	}
+	if len(s.content) > 0 {
+		n.content = make(map[string]*contentRec, len(s.content))
+		for k, v := range s.content {
+			n.content[k] = v
+		}
 	}
 	return n
 }
@@ -103,22 +119,25 @@ type Engine struct {
 	bufT       types.Type
 	pkgInvs    map[string][]Clause
 	implCache  map[string]map[string]bool
+	disabledFrames map[string]bool
+	funcIDs    map[*ssa.Function]int
+	funcByID   map[int]*ssa.Function
 }
 
 func typeKey(t types.Type) string { return types.TypeString(types.Unalias(t), nil) }
 
 var ghostLayouts = map[string][]Comp{
-	"math/big.Int":     {{Path: "val", Sort: SInt, Kind: "ghost"}},
-	"bytes.Buffer":     {{Path: "arr", Sort: SArr, Kind: "bytearr"}, {Path: "off", Sort: SInt, Kind: "ghostlen"}, {Path: "len", Sort: SInt, Kind: "ghostlen"}},
-	"bytes.Reader":     {{Path: "arr", Sort: SArr, Kind: "bytearr"}, {Path: "off", Sort: SInt, Kind: "ghostlen"}, {Path: "len", Sort: SInt, Kind: "ghostlen"}},
-	"sync.Mutex":       {{Path: "held", Sort: SBool, Kind: "ghost"}},
-	"sync.RWMutex":     {{Path: "held", Sort: SBool, Kind: "ghost"}},
-	"sync.Once":        {{Path: "done", Sort: SBool, Kind: "ghost"}},
-	"time.Time":        {{Path: "t", Sort: SInt, Kind: "ghost"}},
-	"strings.Builder":  {{Path: "arr", Sort: SArr, Kind: "bytearr"}, {Path: "off", Sort: SInt, Kind: "ghostlen"}, {Path: "len", Sort: SInt, Kind: "ghostlen"}},
-	"log/slog.Logger":  {{Path: "x", Sort: SInt, Kind: "ghost"}},
-	"reflect.Value":    {{Path: "x", Sort: SInt, Kind: "ghost"}},
-	"sync.WaitGroup":   {{Path: "x", Sort: SInt, Kind: "ghost"}},
+	"math/big.Int":         {{Path: "val", Sort: SInt, Kind: "ghost"}},
+	"bytes.Buffer":         {{Path: "arr", Sort: SArr, Kind: "bytearr"}, {Path: "off", Sort: SInt, Kind: "ghostlen"}, {Path: "len", Sort: SInt, Kind: "ghostlen"}},
+	"bytes.Reader":         {{Path: "arr", Sort: SArr, Kind: "bytearr"}, {Path: "off", Sort: SInt, Kind: "ghostlen"}, {Path: "len", Sort: SInt, Kind: "ghostlen"}},
+	"sync.Mutex":           {{Path: "held", Sort: SBool, Kind: "ghost"}},
+	"sync.RWMutex":         {{Path: "held", Sort: SBool, Kind: "ghost"}},
+	"sync.Once":            {{Path: "done", Sort: SBool, Kind: "ghost"}},
+	"time.Time":            {{Path: "t", Sort: SInt, Kind: "ghost"}},
+	"strings.Builder":      {{Path: "arr", Sort: SArr, Kind: "bytearr"}, {Path: "off", Sort: SInt, Kind: "ghostlen"}, {Path: "len", Sort: SInt, Kind: "ghostlen"}},
+	"log/slog.Logger":      {{Path: "x", Sort: SInt, Kind: "ghost"}},
+	"reflect.Value":        {{Path: "x", Sort: SInt, Kind: "ghost"}},
+	"sync.WaitGroup":       {{Path: "x", Sort: SInt, Kind: "ghost"}},
 	"crypto/rsa.PublicKey": nil,
 }
 
@@ -415,16 +434,16 @@ func (e *Engine) heapKey(kind string, t types.Type, j int) (string, Sort) {
 func (e *Engine) rangeAxiom(key string, t Term) Term {
 	cp, ok := e.heapComps[key]
 	if ok && cp.Kind == "bytearr" && t.Sort == ArrOf(SArr) {
-		r := Term{"r$x", SInt}
-		i := Term{"i$x", SInt}
+		r := Term{S: "r$x", Sort: SInt}
+		i := Term{S: "i$x", Sort: SInt}
 		cell := Select(Select(t, r), i)
 		return Forall([]Term{r, i}, And(Le(IntLit(0), cell), Le(cell, IntLit(255))), cell)
 	}
 	if !ok || cp.Kind != "int" || cp.Lo == nil {
 		return TTrue
 	}
-	r := Term{"r$x", SInt}
-	i := Term{"i$x", SInt}
+	r := Term{S: "r$x", Sort: SInt}
+	i := Term{S: "i$x", Sort: SInt}
 	switch t.Sort {
 	case ArrOf(SInt):
 		cell := Select(t, r)
@@ -442,7 +461,7 @@ func (e *Engine) rowRangeAxiom(key string, row Term) Term {
 	if !ok || cp.Kind != "int" || cp.Lo == nil || row.Sort != ArrOf(SInt) {
 		return TTrue
 	}
-	i := Term{"i$x", SInt}
+	i := Term{S: "i$x", Sort: SInt}
 	cell := Select(row, i)
 	return Forall([]Term{i}, And(Le(BigLit(cp.Lo), cell), Le(cell, BigLit(cp.Hi))), cell)
 }
@@ -457,6 +476,10 @@ type Exec struct {
 	refLog   map[string]map[string]Term
 	logging  bool
 	cur      *checkEnv
+	pendingAx []*Axiom
+	releasing bool
+	matSeq   map[string]*SeqV
+	iteDefs  map[string][3]Term // merged constant -> (cond, then, else)
 	closures map[*ssa.MakeClosure]bool
 	stack    []*ssa.Function
 }
@@ -492,7 +515,55 @@ func shortKey(k string) string {
 	return k
 }
 
+// invalidateContent drops content records that a write through ref w may affect.
+func (x *Exec) invalidateContent(st *State, w Term) {
+	if len(st.content) == 0 {
+		return
+	}
+	wb, wFresh := x.ctx.birth[w.S]
+	for r := range st.content {
+		rb, rFresh := x.ctx.birth[r]
+		switch {
+		case r == w.S:
+			delete(st.content, r)
+		case rFresh && wFresh && rb != wb:
+			// two different fresh objects
+		case rFresh && !wFresh && maxIndex(w.S) < rb:
+			// w existed before r was born
+			if _, isIte := x.minBirth(w.S, 0); isIte && x.mayDenote(w.S, r, 0) {
+				delete(st.content, r)
+			}
+		default:
+			delete(st.content, r)
+		}
+	}
+}
+
+// mayDenote: can the reference term (possibly a choice) denote the fresh reference r?
+func (x *Exec) mayDenote(ref string, r string, depth int) bool {
+	if ref == r {
+		return true
+	}
+	if depth > 4 {
+		return true
+	}
+	def := ref
+	if d, ok := x.ctx.defs[ref]; ok {
+		def = d
+	}
+	if a := splitApp(def, "ite"); len(a) == 3 {
+		return x.mayDenote(a[1], r, depth+1) || x.mayDenote(a[2], r, depth+1)
+	}
+	if _, ok := x.ctx.birth[ref]; ok {
+		return false
+	}
+	return ref != "0"
+}
+
 func (x *Exec) heapSet(st *State, key string, t Term) {
+	if strings.HasPrefix(key, "M:") {
+		st.content = nil
+	}
 	st.heap[key] = t
 	if x.logging {
 		x.writeLog[key] = true
@@ -502,6 +573,9 @@ func (x *Exec) heapSet(st *State, key string, t Term) {
 
 // heapSetAt records a write to one known object reference.
 func (x *Exec) heapSetAt(st *State, key string, t Term, ref Term) {
+	if strings.HasPrefix(key, "M:") {
+		x.invalidateContent(st, ref)
+	}
 	st.heap[key] = t
 	if x.logging {
 		x.writeLog[key] = true
@@ -536,9 +610,104 @@ func (x *Exec) setAlloc(st *State, t Term) {
 
 // newRef allocates a fresh reference.
 func (x *Exec) newRef(st *State, hint string) Term {
-	r := x.ctx.Name(hint, st.alloc)
+	// a fresh reference is a named constant: its index in the name is its time of birth
+	r := x.ctx.Fresh(hint, SInt)
+	x.ctx.Assume(Eq(r, st.alloc))
+	x.ctx.birth[r.S] = x.ctx.n
 	x.setAlloc(st, x.ctx.Name("alloc", Add(r, IntLit(1))))
 	return r
+}
+
+// splitApp splits "(op a b c)" into its top-level arguments.
+func splitApp(s string, op string) []string {
+	pre := "(" + op + " "
+	if !strings.HasPrefix(s, pre) || !strings.HasSuffix(s, ")") {
+		return nil
+	}
+	body := s[len(pre) : len(s)-1]
+	var out []string
+	depth, st := 0, 0
+	for i := 0; i < len(body); i++ {
+		switch body[i] {
+		case '(':
+			depth++
+		case ')':
+			depth--
+		case ' ':
+			if depth == 0 {
+				out = append(out, body[st:i])
+				st = i + 1
+			}
+		}
+	}
+	return append(out, body[st:])
+}
+
+func maxIndex(s string) int {
+	m := 0
+	for i := 0; i < len(s); i++ {
+		if s[i] == '!' {
+			j, n := i+1, 0
+			for j < len(s) && s[j] >= '0' && s[j] <= '9' {
+				n = n*10 + int(s[j]-'0')
+				j++
+			}
+			if n > m {
+				m = n
+			}
+			i = j
+		}
+	}
+	return m
+}
+
+// minBirth: the earliest possible time of birth of the object a reference term denotes,
+// when the term is a fresh reference, nil, or a choice between such terms.
+func (x *Exec) minBirth(ref string, depth int) (int, bool) {
+	if b, ok := x.ctx.birth[ref]; ok {
+		return b, true
+	}
+	if ref == "0" {
+		return 1 << 30, true // nil: no backing object at all
+	}
+	if depth > 4 {
+		return 0, false
+	}
+	def := ref
+	if d, ok := x.ctx.defs[ref]; ok {
+		def = d
+	}
+	if a := splitApp(def, "ite"); len(a) == 3 {
+		b1, ok1 := x.minBirth(a[1], depth+1)
+		b2, ok2 := x.minBirth(a[2], depth+1)
+		if ok1 && ok2 {
+			return min(b1, b2), true
+		}
+	}
+	return 0, false
+}
+
+// rowOf reads the backing row of ref in element memory M, looking through stores to objects
+// that were born after every symbol of ref existed (they cannot be the same object).
+func (x *Exec) rowOf(M Term, ref Term) Term {
+	cur := M.S
+	older := maxIndex(ref.S)
+	for i := 0; i < 64; i++ {
+		def := cur
+		if d, ok := x.ctx.defs[cur]; ok {
+			def = d
+		}
+		a := splitApp(def, "store")
+		if len(a) != 3 {
+			break
+		}
+		b, ok := x.minBirth(a[1], 0)
+		if !ok || older >= b {
+			break
+		}
+		cur = a[0]
+	}
+	return x.ctx.Name("row", Select(Term{S: cur, Sort: M.Sort}, ref))
 }
 
 // resolve a pointer: returns the type of the addressed location and accessors.
